@@ -11,8 +11,8 @@ import itertools
 
 from ..program import AnalysisError, walk_local, dotted
 from ..analysis import Spec, src, const_value
-from ..rules import (GWF, EXC, need_func, stores_to, is_const, raise_class,
-                     eval_atom, UNKNOWN, parent_map)
+from ..rules import (canon, cond_equiv, GWF, EXC, need_func, stores_to, is_const, raise_class,
+                     eval_atom, eval_cond, UNKNOWN, parent_map)
 from . import common
 from .c12 import _first_exit
 from .c17 import _returns
@@ -225,19 +225,18 @@ def duplicate_rejected(prog, an, rep):
     R = 'C09.MPT.duplicate-kind'
     f = need_func(an, BR + '.BranchCascade.add_branch')
     c = an.cfg(f)
+    # the slot of this branch: the cascade entry of its (major, minor),
+    # indexed by its class -- whatever locals the text goes through
+    SLOT = 'self._cascade[%s.major, %s.minor][%s.__class__]' % (
+        (f.params[1],) * 3)
     stores = [n for n in c.nodes.values() if n.kind == 'stmt' and
               isinstance(n.ast, ast.Assign) and
-              src(n.ast.targets[0]) ==
-              'self._cascade[major, minor][branch.__class__]']
+              canon(f, n.ast.targets[0]) == SLOT]
     rep.floor('C09 branch stores in add_branch', len(stores), 1)
-    cur = [v for _, v in stores_to(f, 'cur_branch') if v is not None]
-    ok = len(cur) == 1 and \
-        src(cur[0]) == 'self._cascade[major, minor][branch.__class__]'
-    rep.check(ok, R, f.qname + ': looks up the branch of the same kind and '
-              'version', f.where(), 'cur_branch = %s' % [src(v)
-                                                         for v in cur])
-    free = an.branch_nodes(f, lambda e: src(e) == 'cur_branch', False)
-    taken = an.branch_nodes(f, lambda e: src(e) == 'cur_branch', True)
+    free = an.branch_nodes(f, lambda e: canon(f, e) == SLOT, False)
+    taken = an.branch_nodes(f, lambda e: canon(f, e) == SLOT, True)
+    rep.check(bool(free), R, f.qname + ': looks up the branch of the same '
+              'kind and version', f.where(), 'no test of %s' % SLOT)
     for s_ in stores:
         rep.evaluated()
         ok, path = c.must_pass(free, s_.id)
@@ -254,12 +253,6 @@ def duplicate_rejected(prog, an, rep):
                   ': the duplicate is rejected with '
                   'UnsupportedMultipleStabBranches', f.where(),
                   'a duplicate leads to %s' % (first,))
-    mm = [v for _, v in stores_to(f, 'major') if v is not None]
-    rep.check([src(v) for v in mm] == ['branch.major'] and
-              [src(v) for _, v in stores_to(f, 'minor')
-               if v is not None] == ['branch.minor'], R, f.qname +
-              ': keyed by the branch\'s (major, minor)', f.where(),
-              'key is %s' % [src(v) for v in mm])
 
 
 def hotfix_admission(prog, an, rep):
@@ -425,7 +418,7 @@ def target_version_cases(prog, an, rep):
             if i in handlers:
                 got.add(handlers[i])
             if n.kind == 'test':
-                v = eval_atom(n.ast, env)
+                v = eval_cond(f, n.ast, env)
                 if v is UNKNOWN:
                     stack.extend(s for s in c.succ[i]
                                  if (i, s) not in c.exc_edges)
